@@ -289,6 +289,119 @@ func engJoin(e *Env) {
 				e.sample(map[string]any{"request": q, "result_k": sortedKeys(got), "indexed": indexed})
 			}
 		}
+		// ---- ordering through the relation: every live child is listed, in the order of its parent's field (a child
+		// without parent has a null key: first ascending, last descending)
+		for _, dir := range []string{"ASC", "DESC"} {
+			q := fmt.Sprintf(`query { %s(order: {author: {rating: %s}}) { k author { rating } } }`, bk, dir)
+			data, errs := x.gql(ctx, q)
+			e.Res.Evaluations++
+			e.distinct(q)
+			if errs != "" {
+				e.violate("join-error", errs, replay(q))
+				continue
+			}
+			want, got := map[string]bool{}, map[string]bool{}
+			for _, b := range books {
+				if b.alive {
+					want[fmt.Sprint(b.k)] = true
+				}
+			}
+			var seq []int64
+			dupl := false
+			for _, row := range rowsOf(data, bk) {
+				k := fmt.Sprint(row["k"])
+				dupl = dupl || got[k]
+				got[k] = true
+				key := int64(-1)
+				if a, ok := row["author"].(map[string]any); ok && a != nil {
+					if v, ok := a["rating"].(int64); ok {
+						key = v
+					}
+				}
+				seq = append(seq, key)
+			}
+			kind := "join-order"
+			if indexed {
+				kind = "join-order-indexed"
+			}
+			if ks(got) != ks(want) || dupl {
+				// fingerprint of the recorded finding: exactly the live children without a parent are missing
+				orphans := map[string]bool{}
+				for _, b := range books {
+					if b.alive && b.fk < 0 {
+						orphans[fmt.Sprint(b.k)] = true
+					}
+				}
+				missing := map[string]bool{}
+				for k := range want {
+					if !got[k] {
+						missing[k] = true
+					}
+				}
+				tag := ""
+				if indexed && !dupl && len(got)+len(missing) == len(want) && ks(missing) == ks(orphans) {
+					tag = " [exactly the children without a parent are missing]"
+				}
+				e.violate(kind, fmt.Sprintf("%s lists k=[%s] (duplicates: %v), the live documents are [%s]%s", q, ks(got), dupl, ks(want), tag), replay(q))
+			}
+			for i := 1; i < len(seq); i++ {
+				if dir == "ASC" && seq[i-1] > seq[i] || dir == "DESC" && seq[i-1] < seq[i] {
+					e.violate(kind, fmt.Sprintf("%s: the parents' ratings come in the sequence %v (-1 = no parent)", q, seq), replay(q))
+					break
+				}
+			}
+		}
+		// ---- aggregates through the relation, from the parent side, against the links written; and the same totals
+		// asked from the child side
+		{
+			c := int64(r.Intn(7))
+			q := fmt.Sprintf(`query { %s { k n: _count(books: {}) s: _sum(books: {field: pages}) nf: _count(books: {filter: {pages: {_gt: %d}}}) mx: _max(books: {field: pages}) mn: _min(books: {field: pages}) } }`, au, c)
+			data, errs := x.gql(ctx, q)
+			e.Res.Evaluations++
+			e.distinct(q)
+			if errs != "" {
+				e.violate("join-error", errs, replay(q))
+			}
+			for _, row := range rowsOf(data, au) {
+				var n, sum, nf int64
+				var mx, mn any
+				for _, b := range books {
+					if b.alive && b.fk >= 0 && fmt.Sprint(b.fk) == fmt.Sprint(row["k"]) {
+						n++
+						sum += b.a
+						if b.a > c {
+							nf++
+						}
+						if mx == nil || b.a > mx.(int64) {
+							mx = b.a
+						}
+						if mn == nil || b.a < mn.(int64) {
+							mn = b.a
+						}
+					}
+				}
+				want := fmt.Sprintf("n=%d s=%d nf=%d mx=%v mn=%v", n, sum, nf, mx, mn)
+				got := fmt.Sprintf("n=%v s=%v nf=%v mx=%v mn=%v", row["n"], row["s"], row["nf"], row["mx"], row["mn"])
+				if want != got {
+					kind := "join-aggregate"
+					if indexed {
+						kind = "join-aggregate-indexed"
+					}
+					e.violate(kind, fmt.Sprintf("%s: parent k=%v has %s, its children say %s", q, row["k"], got, want), replay(q))
+				}
+				// the same number from the child side
+				for _, a := range authors {
+					if fmt.Sprint(a.k) == fmt.Sprint(row["k"]) && a.k < 3 {
+						q2 := fmt.Sprintf(`query { n: _count(%s: {filter: {author: {k: {_eq: %d}}}}) s: _sum(%s: {field: pages, filter: {author_id: {_eq: "%s"}}}) }`, bk, a.k, bk, a.id)
+						d2, e2 := x.gql(ctx, q2)
+						e.Res.Evaluations++
+						if e2 != "" || fmt.Sprint(d2["n"]) != fmt.Sprint(n) || fmt.Sprint(d2["s"]) != fmt.Sprint(sum) {
+							e.violate("join-aggregate", fmt.Sprintf("%s returns n=%v s=%v %s, the parent side says n=%d s=%d", q2, d2["n"], d2["s"], e2, n, sum), replay(q2))
+						}
+					}
+				}
+			}
+		}
 		// ---- one-to-one: a target is held by at most one document
 		if len(authors) >= 2 {
 			a0, a1 := authors[0], authors[1]
